@@ -270,6 +270,8 @@ func Run(r *vk.Run) {
 					r.Guard(c, func() { runLive(r, c) })
 				case LoopCase:
 					r.Guard(c, func() { runLoop(r, c) })
+				case ParkCase:
+					r.Guard(c, func() { runPark(r, c) })
 				}
 			}
 		}()
@@ -282,6 +284,15 @@ func Run(r *vk.Run) {
 	}
 	for _, c := range loopCases {
 		ch <- c
+	}
+	pid := 0
+	for _, who := range []string{"agg", "hdr", "data"} {
+		for k := 1; k <= r.N(10, 16); k++ {
+			for _, limit := range []uint64{2, 3}[:r.N(1, 2)] {
+				pid++
+				ch <- ParkCase{ID: n + 30000 + pid, Limit: limit, Who: who, K: k}
+			}
+		}
 	}
 	close(ch)
 	wg.Wait()
